@@ -226,3 +226,73 @@ Definition check_C01' (b : bscen) (sched : list tid) (impl : bobs) : verdict :=
   let v := check_C01 b sched impl in
   mkv (v_strict v) (v_proj v && acyclic_order (sc_nlocks (bs_sc b)) (bo_evs impl)) (v_mon v) (v_monk v).
 Definition acyclic_impl (b : bscen) (impl : bobs) : bool := acyclic_order (sc_nlocks (bs_sc b)) (bo_evs impl).
+
+(* ---------------------------------------------------------------- C10 on interleaved executions *)
+(* What an acquisition returns (Ok / Err(poisoned)) must agree with the panics that unwound exclusive holds before the
+   acquisition was granted.  A hold's poisoning is dated at the first release of the unwinding guard (the flag is set
+   before it), a panicking closure's at its entry: no other thread can have acquired the lock in between.  Only the
+   results of acquisitions are judged (an is_poisoned probe may run while a panic is in flight). *)
+Record b10 := mkb10 {
+  pz : pid -> pst;
+  gcoll : tid -> option (nat * mode);
+  calls10 : tid -> nat;
+  ok10 : bool
+}.
+
+Definition cur_op10 (b : bscen) (s : b10) (t : tid) : option apiop := nth_error (nth t (bs_progs b) []) (calls10 s t).
+
+Definition step10 (b : bscen) (s : b10) (e : bev) : b10 :=
+  let sc := bs_sc b in
+  match e with
+  | BE (EMark t 1) =>
+      match cur_op10 b s t with
+      | Some (AAcquire c m f) =>
+          if has_panic f then
+            let ps := pz s in
+            let ps' := match root_poison (shape_of sc c) with
+                       | Some p => upd_all (upd ps p (pst_after_panic m (ps p)))
+                                           (filter (fun q => negb (Nat.eqb q p)) (pids_of sc c)) (fun _ => PDontCare)
+                       | None => upd_all ps (pids_of sc c) (fun _ => PDontCare)
+                       end in
+            mkb10 ps' (gcoll s) (calls10 s) (ok10 s)
+          else s
+      | _ => s
+      end
+  | BE (ERaw t k l RUnit) =>
+      if is_rel_rop k then
+        match cur_op10 b s t, gcoll s t with
+        | Some APanic, Some (c, m) => mkb10 (upd_all (pz s) (pids_of sc c) (pst_after_panic m)) (gcoll s) (calls10 s) (ok10 s)
+        | _, _ => s
+        end
+      else s
+  | BRet t r _ =>
+      let s1 :=
+        match cur_op10 b s t with
+        | Some (AAcquire c m (FGuard | FTry)) =>
+            match r with
+            | ROk | RPoisoned =>
+                let good := match root_poison (shape_of sc c) with
+                            | Some p => pst_agrees (pz s p) (rcode_eqb r RPoisoned)
+                            | None => rcode_eqb r ROk
+                            end in
+                mkb10 (pz s) (upd (gcoll s) t (Some (c, m))) (calls10 s) (ok10 s && good)
+            | _ => s
+            end
+        | Some (AGuardDrop | AGuardUnlock | APanic | AGuardForget) => mkb10 (pz s) (upd (gcoll s) t None) (calls10 s) (ok10 s)
+        | Some (AClearPoison c) =>
+            match root_poison (shape_of sc c) with
+            | Some p => mkb10 (upd (pz s) p PDontCare) (gcoll s) (calls10 s) (ok10 s)
+            | None => s
+            end
+        | _ => s
+        end in
+      mkb10 (pz s1) (gcoll s1) (upd (calls10 s1) t (S (calls10 s1 t))) (ok10 s1)
+  | _ => s
+  end.
+
+Definition mon_C10b (b : bscen) (o : bobs) : bool :=
+  ok10 (fold_left (step10 b) (bo_evs o) (mkb10 (fun _ => PClean) (fun _ => None) (fun _ => 0) true)).
+
+Definition bev_is_poison (e : bev) : bool :=
+  match e with BE (ESee _ _) | BRet _ _ _ => true | BE (ERaw _ _ _ _) => true | _ => false end.
+Definition check_C10b := bcheck bev_is_poison false true mon_C10b.
